@@ -62,7 +62,7 @@ def run(ck: Check):
     ck.rule(
         "Gaussian streams with 0-2 mean shifts, constants, ramps (t <= 60 quick / 150 thorough), priors / variances / hazards on a grid incl. extreme hazards (1e-6, .999); at every step the "
         "run-length row is compared with the linear-space Adams-MacKay posterior recomputed non-incrementally (tolerance 1e-8 abs on probabilities), normalisation, the posterior-weighted "
-        "prediction, and drift vs (arg max != t) unless the two largest probabilities are within 1e-9; also pairs of detectors built from ONE configuration object and updated alternately (one reset in mid-stream), each checked against the posterior of its own stream; non-trivial = the most probable run length is shorter than t at some step"
+        "prediction, and drift vs (arg max != t) unless the two largest probabilities are within 1e-9; one run of 1300 steps (2500 thorough) without reset checked at every step for row normalisation and the exact identity P(r_t=0)=hazard; also pairs of detectors built from ONE configuration object and updated alternately (one reset in mid-stream), each checked against the posterior of its own stream; non-trivial = the most probable run length is shorter than t at some step"
     )
     cases, impl = [], []
     for _ in range(50 if not thorough else 400):
@@ -119,6 +119,31 @@ def run(ck: Check):
         okb, _ = check_trace(ck, cfg, xb, ob, extra=dict(scenario="two detectors sharing one config object, alternating updates", other_stream=xa))
         ck.case(dict(config=cfg, n=n, kind="shared-config-pair", reset_at=kreset), nontrivial=True, key=repr((cfg, xa, xb, kreset)))
         ck.count("shared_config_pairs")
+    # long runs without reset: two exact invariants of the posterior that need no O(t^2) reference -
+    # every row sums to one and, for a constant hazard H, P(r_t = 0 | x_1..t) = H exactly
+    # (J_t(0) = H * evidence_t); the un-normalised message underflows naive linear-domain arithmetic after ~700 steps
+    import numpy as np
+    from scipy.special import logsumexp as _lse
+
+    for n in ([1300] if not thorough else [1300, 2500]):
+        cfg = dict(prior_mean=0.0, prior_var=1.0, data_var=1.0, hazard=rng.choice([0.01, 0.05]), min_num_instances=30)
+        xs = [rng.gauss(0, 1) for _ in range(n - 150)] + [rng.gauss(4, 1) for _ in range(150)]
+        d = DET.make(cfg)
+        bad = None
+        for t, v in enumerate(xs, 1):
+            d.update(value=v)
+            row = d.log_r[t, : t + 1]
+            if abs(float(_lse(row))) > 1e-9:
+                bad = dict(clause="normalisation", what="run-length row does not sum to one", step=t, log_total=float(_lse(row)))
+                break
+            p0 = math.exp(float(row[0]))
+            if abs(p0 - cfg["hazard"]) > 1e-9 * cfg["hazard"] + 1e-15:
+                bad = dict(clause="posterior", what="P(r_t = 0 | data) differs from the hazard (exact identity of the Adams-MacKay posterior with a constant hazard)", step=t, p0=p0, hazard=cfg["hazard"])
+                break
+        ck.case(dict(config=cfg, n=n, kind="long-run"), nontrivial=True, key=repr(("long", cfg, n, xs[:3])))
+        ck.count("long_run_steps", n)
+        if bad:
+            ck.violation(dict(clause=bad["clause"], regime="long-run"), dict(config=cfg, stream_head=xs[:5], stream_len=n, seed_note="stream = N(0,1) then N(4,1) for the last 150 values, drawn from the check's generator", **bad))
     models = run_models("C08", cases, shard=8)
     corr_compare(ck, "C08", cases, impl, models, rtol=1e-7, atol=1e-9)
 
